@@ -148,6 +148,27 @@ func c16catalogue() []c16item {
 	add("gzip-of-garbage", true, false, func(r *rand.Rand, e *rpcEnv, a pendingReq) []byte { return refserver.Gzip(rbytes(r, 20)) })
 	add("gzip-bad-stream", true, false, func(r *rand.Rand, e *rpcEnv, a pendingReq) []byte { return append(le32(0x3072cfa1), mtp.TLBytes(rbytes(r, 24))...) })
 	add("gzip-of-gzip-of-update", true, true, func(r *rand.Rand, e *rpcEnv, a pendingReq) []byte { return refserver.Gzip(refserver.Gzip(apiUpdateBody(r))) })
+	// malformed envelopes (sealed under the right key): declared lengths at the integer boundaries, tiny frames
+	for _, dl := range []int32{1<<31 - 1, 1<<31 - 16, -1 << 31, -1} {
+		dl := dl
+		items = append(items, c16item{Name: fmt.Sprintf("envelope-declared-len-%d", dl), raw: func(cn *refserver.Conn) {
+			key, sess := cn.KeySession()
+			if key != nil {
+				in := mtp.Inner{Salt: 1, Session: sess, MsgID: cn.S.NextMsgID(1), SeqNo: 1, Body: make([]byte, 24)}
+				cn.SendRaw(mtp.SealDeclared(key, in, 8, make([]byte, 8), dl, nil))
+			}
+		}})
+	}
+	for _, n := range []int{0, 1, 3, 5, 7, 8, 23} {
+		n := n
+		items = append(items, c16item{Name: fmt.Sprintf("frame-of-%d-bytes", n), raw: func(cn *refserver.Conn) {
+			b := make([]byte, n)
+			for i := range b {
+				b[i] = byte(0x11 * (i + 1))
+			}
+			cn.SendRaw(b)
+		}})
+	}
 	items = append(items, c16item{Name: "transport-code--404", raw: func(cn *refserver.Conn) { cn.SendRaw(le32(0xfffffe6c)) }})
 	items = append(items, c16item{Name: "transport-code--429", raw: func(cn *refserver.Conn) { cn.SendRaw(le32(0xfffffe53)) }})
 	items = append(items, c16item{Name: "close", raw: func(cn *refserver.Conn) { cn.Close() }})
@@ -166,6 +187,14 @@ func c16(c *wk.Ctx) {
 			}
 			idx++
 		}
+	}
+	// every item twice in a row (state left behind by the first occurrence meets the second)
+	for i := range cat {
+		if c.Mine(idx) {
+			c.Begin(idx, "double "+cat[i].Name)
+			c16case(c, idx, c.Rand(idx), []c16item{cat[i], cat[i]}, i)
+		}
+		idx++
 	}
 	// random sequences of 1-8 items
 	for k := 0; k < c.Pick(100, 2000); k++ {
